@@ -4,7 +4,7 @@
    and the stack machine equivalent to it, row by row and document by document. *)
 From Coq Require Import List Ascii String.
 From GT Require Import Base.GoStr Md.Parser Tree.Tree Tree.Gen Api.Simple Spec.Classify
-  Proofs.GenItems Proofs.ParseClassify Proofs.Complete.
+  Spec.Spec Proofs.BuildTrie Proofs.GenItems Proofs.ParseClassify Proofs.NoLoss Proofs.Complete.
 Import ListNotations.
 
 (* for every byte string whose lines are within the scanner limit and every output mode
@@ -34,6 +34,19 @@ Theorem C02_accepted : forall c input rows,
   exists items st', classify_rows rows = VOk items /\ parses p0 rows items st'.
 Proof. exact accepted_items. Qed.
 Print Assumptions C02_accepted.
+
+(* NO SILENT LOSS: when nil is returned, every non-blank line is represented by a node of the
+   rendered forest: the path computed for it from the indentation alone (names of the
+   nearest preceding items of depth 1..d-1, then its own name) exists in that forest *)
+Theorem C02_no_loss : forall c input rows,
+  c_dry c = false -> scan_lines input = (rows, ScanEOF) ->
+  snd (output_md c input) = Ok tt ->
+  exists items forest,
+    classify_rows rows = VOk items /\ gen_all input = Ok forest /\
+    forall p, In p (item_paths_from [] items) ->
+      exists r rest t, p = r :: rest /\ In t forest /\ tname t = r /\ has_path rest t.
+Proof. exact nothing_lost. Qed.
+Print Assumptions C02_no_loss.
 
 (* the line parser and the classifier agree row by row (the link the three theorems rest on) *)
 Theorem C02_parser_is_classifier : forall rows,
